@@ -111,7 +111,7 @@ func checkC11(c PairCase, r *rec.Rec) error {
 
 func genC11(t *rapid.T) PairCase {
 	opts := gen.Pick(t, "opts", c11OptSets)
-	p := gen.Profile{NullFree: true, MaxDepth: 4}
+	p := gen.Profile{NullFree: true, MaxDepth: 4, Floats: gen.Chance(t, "floats", 30)}
 	if gen.Chance(t, "nasty", 15) {
 		p.NastyKeys = true
 		p.Payload = true
